@@ -54,6 +54,14 @@ func lenIsZeroFact(f condFact, is func(ssa.Value) bool) bool {
 	if !ok {
 		return false
 	}
+	// s == "" for a string
+	for _, pr := range [][2]ssa.Value{{bo.X, bo.Y}, {bo.Y, bo.X}} {
+		if k, isS := constStr(pr[1]); isS && k == "" && is(strip(pr[0])) {
+			if (bo.Op == token.EQL && f.Pol) || (bo.Op == token.NEQ && !f.Pol) {
+				return true
+			}
+		}
+	}
 	x, y, op := bo.X, bo.Y, bo.Op
 	if _, isC := constInt(x); isC {
 		x, y = y, x
